@@ -68,62 +68,184 @@ def fold_omit(im: Image):
     return f
 
 
+_ff_cache: dict = {}
+
+
+def folded(im: Image) -> "FactoryFold":
+    key = id(im)
+    if key not in _ff_cache:
+        _ff_cache.clear()
+        _ff_cache[key] = fold_factories(im)
+    return _ff_cache[key]
+
+
 def factory_wiring(im: Image) -> list[tuple[str, str, int]]:
-    """Dataflow-shape check of the two per-class factories.  -> list of (construct, problem, lineno)."""
-    h = im.hooks
-    problems = []
-    facs = {f.direction: f for f in h.factories}
-    for direction, maker in (("unstructure", "make_dict_unstructure_fn"), ("structure", "make_dict_structure_fn")):
-        fr = facs.get(direction)
-        if fr is None:
-            problems.append((f"{direction}-factory", f"no {direction} hook factory is registered", 0))
-            continue
-        if fr.predicate not in ("attrs.has", "attr.has"):
-            problems.append((f"{direction}-factory", f"factory predicate is {fr.predicate}, not attrs.has", fr.lineno))
-        fn = fr.factory
-        if len(fn.args.args) != 1:
-            problems.append((fn.name, "factory does not take exactly the class", fn.lineno))
-            continue
-        cls = fn.args.args[0].arg
-        body = [s for s in fn.body if not (isinstance(s, ast.Expr) and isinstance(s.value, ast.Constant))]
-        if len(body) != 2 or not isinstance(body[0], ast.Assign) or not isinstance(body[1], ast.Return):
-            raise AnalysisError(f"{h.rel}:{fn.lineno}: {fn.name} no longer has the shape "
-                                "`attributes = {...}; return make_dict_..._fn(...)`")
-        tgt = body[0].targets[0]
-        comp = body[0].value
-        if not (isinstance(tgt, ast.Name) and isinstance(comp, ast.DictComp) and len(comp.generators) == 1):
-            raise AnalysisError(f"{h.rel}:{fn.lineno}: {fn.name}: overrides are not built by one dict comprehension")
-        g = comp.generators[0]
-        var = g.target.id if isinstance(g.target, ast.Name) else None
-        it_ok = isinstance(g.iter, ast.Call) and dotted(g.iter.func) in ("attrs.fields", "attr.fields") \
-            and len(g.iter.args) == 1 and dotted(g.iter.args[0]) == cls
-        if not it_ok or var is None:
-            problems.append((fn.name, "overrides are not computed for every entry of attrs.fields(cls)", fn.lineno))
-            continue
-        if g.ifs:
-            problems.append((fn.name, "the override comprehension filters attributes", fn.lineno))
-        if dotted(comp.key) != f"{var}.name":
-            problems.append((fn.name, "override key is not the attribute name", fn.lineno))
-        val = comp.value
-        if not (isinstance(val, ast.Call) and (dotted(val.func) or "").endswith("override")):
-            problems.append((fn.name, "override value is not cattrs.gen.override(...)", fn.lineno))
-            continue
-        kws = {k.arg: k.value for k in val.keywords}
-        rn = kws.get("rename")
-        if not (isinstance(rn, ast.Call) and dotted(rn.func) == "_to_camel_case" and len(rn.args) == 1
-                and dotted(rn.args[0]) == f"{var}.name"):
-            problems.append((fn.name, "rename= is not _to_camel_case(<attribute>.name)", fn.lineno))
-        om = kws.get("omit_if_default")
-        if not (isinstance(om, ast.Call) and dotted(om.func) == "_omit" and len(om.args) == 2
-                and dotted(om.args[0]) == cls and dotted(om.args[1]) == f"{var}.name"):
-            problems.append((fn.name, "omit_if_default= is not _omit(cls, <attribute>.name)", fn.lineno))
-        extra = set(kws) - {"rename", "omit_if_default"}
-        if extra:
-            problems.append((fn.name, f"override carries extra keywords {sorted(extra)}", fn.lineno))
-        ret = body[1].value
-        ok = isinstance(ret, ast.Call) and (dotted(ret.func) or "").endswith(maker) and len(ret.args) == 2 \
-            and dotted(ret.args[0]) == cls and dotted(ret.args[1]) == fr.conv_name \
-            and len(ret.keywords) == 1 and ret.keywords[0].arg is None and dotted(ret.keywords[0].value) == tgt.id
-        if not ok:
-            problems.append((fn.name, f"does not return {maker}(cls, converter, **{tgt.id})", fn.lineno))
-    return problems
+    """Problems with the two per-class factories, decided semantically (see fold_factories): registration with
+    attrs.has on the converter given, one override(rename=, omit_if_default=) per attrs.fields(cls) entry handed to
+    make_dict_(un)structure_fn bound to the same converter, the generated function returned as is, and overrides
+    that do not depend on the order in which classes are first met.  -> [(construct, problem, lineno)]"""
+    ff = folded(im)
+    probs = list(ff.problems)
+    for direction, attr, msg in ff.order_dependent:
+        probs.append((f"{direction}-factory:order:{attr}",
+                      f"the override computed for {attr} depends on which classes the converter met before: {msg}", 0))
+    return probs
+
+
+def folded_omit(im: Image):
+    """(class, attr) -> omit_if_default as handed to cattrs by the unstructure factory."""
+    ff = folded(im)
+    table = ff.overrides["unstructure"]
+
+    def f(cname, attr):
+        if (cname, attr) not in table:
+            raise AnalysisError(f"{im.hooks.rel}: the unstructure factory produced no override for {cname}.{attr}")
+        v = table[(cname, attr)][1]
+        if not isinstance(v, bool):
+            raise AnalysisError(f"{im.hooks.rel}: omit_if_default for {cname}.{attr} does not fold to a bool ({v!r})")
+        return v
+    return f
+
+
+def folded_rename(im: Image, direction: str):
+    ff = folded(im)
+    table = ff.overrides[direction]
+
+    def f(cname, attr):
+        return table.get((cname, attr), (None, None))[0]
+    return f
+
+
+# ------------------------------------------------------------------------------------------------
+# semantic form of the factory wiring: run _register_custom_property_hooks in the micro-evaluator with
+# attrs / cattrs.gen stubbed, call the registered factories for every class and read off the overrides
+
+class FactoryFold:
+    def __init__(self):
+        self.overrides: dict[str, dict] = {"structure": {}, "unstructure": {}}   # dir -> {(cls, attr): (rename, omit)}
+        self.problems: list[tuple[str, str, int]] = []                            # (construct, message, lineno)
+        self.order_dependent: list[tuple[str, str, str]] = []
+        self.classes = 0
+
+
+def fold_factories(im: Image) -> FactoryFold:
+    from .microeval import Interp, Record, ClassRef, ModuleRef, Closure, Raised
+    t, h = im.types, im.hooks
+    reg = h.functions.get("_register_custom_property_hooks")
+    if reg is None:
+        raise AnalysisError(f"{h.rel}: _register_custom_property_hooks not found")
+    out = FactoryFold()
+    class_names = [c.name for c in t.attrs_classes()]
+    out.classes = len(class_names)
+    fields_of = {c.name: [Record("Attribute", {"name": f.name}) for f in c.fields] for c in t.attrs_classes()}
+
+    def one_pass(order):
+        tit = Interp(name=t.rel)
+        node = t.tables.get("_SPECIAL_PROPERTIES")
+        fn = t.functions.get("is_special_property")
+        if node is None or fn is None:
+            raise AnalysisError(f"{t.rel}: _SPECIAL_PROPERTIES / is_special_property not found")
+        tit.globals["_SPECIAL_PROPERTIES"] = tit.eval(node, {})
+        for fname, fdef in t.functions.items():
+            tit.globals[fname] = Closure(fdef, None, tit)
+        types_mod = ModuleRef("types", interp=tit)
+        captured = {}
+
+        def mk_gen(direction):
+            def gen(cls, conv, **kw):
+                return Record("generated_fn", {"direction": direction, "cls": cls, "converter": conv, "overrides": kw})
+            return ("host", gen)
+
+        def fields(cls):
+            if not isinstance(cls, ClassRef) or cls.name not in fields_of:
+                raise AnalysisError(f"{h.rel}: attrs.fields() called on something that is not a generated class")
+            return fields_of[cls.name]
+        gen_mod = ModuleRef("cattrs.gen", attrs={
+            "override": ("host", lambda **kw: Record("override", kw)),
+            "make_dict_unstructure_fn": mk_gen("unstructure"),
+            "make_dict_structure_fn": mk_gen("structure"),
+        })
+        cattrs_mod = ModuleRef("cattrs", attrs={"gen": gen_mod})
+        attrs_mod = ModuleRef("attrs", attrs={"fields": ("host", fields),
+                                              "has": ("host", lambda c: isinstance(c, ClassRef) and c.name in fields_of)})
+
+        def reg_factory(direction):
+            def r(pred, factory=None):
+                captured[direction] = (pred, factory)
+                return factory
+            return ("host", r)
+        conv = Record("Converter", {"register_unstructure_hook_factory": reg_factory("unstructure"),
+                                    "register_structure_hook_factory": reg_factory("structure")})
+        it = Interp(name=h.rel, extra_globals={"attrs": attrs_mod, "cattrs": cattrs_mod, h.types_alias: types_mod})
+        # module-level state of _hooks.py that the register function may use (caches, constants)
+        for st in h.tree.body:
+            if isinstance(st, (ast.Assign, ast.AnnAssign)):
+                tgt = st.targets[0] if isinstance(st, ast.Assign) else st.target
+                if isinstance(tgt, ast.Name) and st.value is not None and isinstance(st.value, (ast.Dict, ast.List, ast.Constant, ast.Set)):
+                    try:
+                        it.globals[tgt.id] = it.eval(st.value, {})
+                    except (AnalysisError, Raised):
+                        pass
+            elif isinstance(st, ast.FunctionDef):
+                it.globals.setdefault(st.name, Closure(st, None, it))
+        try:
+            ret = it.call(reg, [conv])
+        except Raised as e:
+            raise AnalysisError(f"{h.rel}: _register_custom_property_hooks raises {e.exc_name} when folded")
+        if ret is not conv:
+            out.problems.append(("_register_custom_property_hooks:return", "does not return the converter it was given", reg.lineno))
+        res = {"structure": {}, "unstructure": {}}
+        for direction in ("unstructure", "structure"):
+            if direction not in captured:
+                out.problems.append((f"{direction}-factory", f"no {direction} hook factory is registered on the converter", reg.lineno))
+                continue
+            pred, factory = captured[direction]
+            if not (isinstance(pred, tuple) and pred[0] == "host"):
+                out.problems.append((f"{direction}-factory", "factory predicate is not attrs.has", reg.lineno))
+            for cname in order:
+                try:
+                    r = it.apply(factory, [ClassRef(cname, "attrs")], {})
+                except Raised as e:
+                    out.problems.append((f"{direction}-factory:{cname}", f"factory raises {e.exc_name} for {cname}", reg.lineno))
+                    continue
+                if not (isinstance(r, Record) and r.cls_name == "generated_fn"):
+                    if direction == "structure":
+                        out.problems.append((f"{direction}-factory:returns",
+                                             "the structure factory does not return the function generated by "
+                                             "make_dict_structure_fn itself: cattrs' native union disambiguator reads its "
+                                             "`.overrides` (axiom A2) and would fall back to snake_case keys", reg.lineno))
+                        break
+                    raise AnalysisError(f"{h.rel}: the unstructure factory wraps the generated function; its effect is not modelled")
+                f = r.fields
+                if f["direction"] != direction:
+                    out.problems.append((f"{direction}-factory:maker", f"the {direction} factory builds a {f['direction']} function", reg.lineno))
+                if not (isinstance(f["cls"], ClassRef) and f["cls"].name == cname):
+                    out.problems.append((f"{direction}-factory:{cname}", "generated function is built for another class", reg.lineno))
+                if f["converter"] is not conv:
+                    out.problems.append((f"{direction}-factory:converter", "generated function is not bound to this converter", reg.lineno))
+                ov = f["overrides"]
+                names = {a.fields["name"] for a in fields_of[cname]}
+                if set(ov) != names:
+                    out.problems.append((f"{direction}-factory:{cname}",
+                                         f"overrides are given for {sorted(set(ov) ^ names)[:4]} differently from attrs.fields({cname})",
+                                         reg.lineno))
+                for an, o in ov.items():
+                    if not (isinstance(o, Record) and o.cls_name == "override"):
+                        out.problems.append((f"{direction}-factory:{cname}.{an}", "override is not cattrs.gen.override(...)", reg.lineno))
+                        continue
+                    extra = set(o.fields) - {"rename", "omit_if_default"}
+                    if extra:
+                        out.problems.append((f"{direction}-factory:{cname}.{an}", f"override carries {sorted(extra)}", reg.lineno))
+                    res[direction][(cname, an)] = (o.fields.get("rename"), o.fields.get("omit_if_default"))
+        return res
+
+    first = one_pass(class_names)
+    second = one_pass(list(reversed(class_names)))
+    for direction in ("structure", "unstructure"):
+        out.overrides[direction] = first[direction]
+        for key, v in first[direction].items():
+            v2 = second[direction].get(key)
+            if v2 is not None and v2 != v:
+                out.order_dependent.append((direction, f"{key[0]}.{key[1]}",
+                                            f"{v} when classes are met in declaration order, {v2} in the reverse order"))
+    return out
